@@ -493,7 +493,7 @@ def replay(ctx, path):
     with open(path) as fh:
         body = json.load(fh)
     p = body.get("input", {})
-    if p.get("stream") not in ("plan", "orbit"):
+    if p.get("stream") not in ("plan", "orbit", "realtable", "skip"):
         print("replay file carries no concrete pass: %s" % (body.get("broken_theorems_or_obligations") or p))
         return 1
     print("replay: re-running the %s stream with the recorded seed" % p["stream"])
